@@ -444,6 +444,106 @@ static std::string related(Ctx &c, const Slot &s, const char *&how) {
   }
 }
 
+// ---- locating nodes by name in a list (mpt_node_locate): a list of C nodes with repeated names, the model is the list of names
+//      pos > 0: the pos-th node of that name from the start node on (start node included); pos < 0: the |pos|-th before the
+//      start node; pos == 0: the last one in the whole list (doc comment of mpt_node_locate).
+//      charset < 0: name given as (address, length) without terminator, nodes with text names match;
+//      charset UTF8 given explicitly: the length includes the terminator.
+struct NodeList {
+  std::vector<node *> nd;
+  std::vector<Model> name;
+  ~NodeList() {
+    for (node *n : nd) { n->next = n->prev = n->parent = 0; }
+    if (!g_abandon) for (node *n : nd) mpt_node_destroy(n);
+  }
+  void link() {  // plain doubly linked list without parent, as MPT_NODE_INIT users build it
+    for (size_t i = 0; i < nd.size(); i++) {
+      nd[i]->prev = i ? nd[i - 1] : 0;
+      nd[i]->next = i + 1 < nd.size() ? nd[i + 1] : 0;
+    }
+  }
+  long expected(size_t start, int pos, const std::string &key) const {
+    auto match = [&](size_t i) { return name[i].text() && *name[i] == key; };
+    if (pos > 0) { for (size_t i = start; i < nd.size(); i++) if (match(i) && !--pos) return (long)i; return -1; }
+    if (pos == 0) { for (size_t i = nd.size(); i-- > 0;) if (match(i)) return (long)i; return -1; }
+    for (size_t i = start; i-- > 0;) if (match(i) && !++pos) return (long)i;
+    return -1;
+  }
+};
+enum { FormExact, FormSegment, FormTerminated, FormExplicit };
+static const char *kForm[] = {"exact-size copy", "segment of a longer string", "zero terminated", "explicit charset, length with terminator"};
+static void locate_once(Ctx &c, NodeList &l, size_t start, int pos, const std::string &key, int form, const std::string &tail) {
+  std::string arg = key;
+  size_t len = key.size();
+  int charset = -1;
+  switch (form) {
+    case FormSegment: arg += tail; break;          // followed by other (non-zero) bytes, e.g. "abc" in "abc.def"
+    case FormTerminated: arg.push_back('\0'); break;
+    case FormExplicit: arg.push_back('\0'); len = key.size() + 1; charset = identifier::UTF8; break;
+  }
+  Exact buf(arg, false);  // exact-size heap block: reading behind the given length is an ASan report for FormExact
+  node *got = mpt_node_locate(l.nd[start], pos, buf.p, len, charset);
+  long want = l.expected(start, pos, key);
+  long gi = -1;
+  for (size_t i = 0; i < l.nd.size(); i++) if (l.nd[i] == got) gi = (long)i;
+  c.logf("locate(from [%zu], pos %d, %s, %s) = [%ld], expected [%ld]", start, pos, show(Model(key)).c_str(), kForm[form], got ? gi : -1L, want);
+  CK(c, !got || gi >= 0, "locate-wrong", "mpt_node_locate returned a node that is not in the list");
+  CK(c, gi == want, "locate-wrong", "mpt_node_locate(from [%zu] of %zu nodes, pos %d, name %s as %s) found [%ld], the list has it at [%ld]", start, l.nd.size(), pos, show(Model(key)).c_str(), kForm[form], gi, want);
+  char b[48];
+  snprintf(b, sizeof b, "locate:%s:%s", pos > 0 ? "forward" : pos < 0 ? "backward" : "last", want >= 0 ? "found" : "none");
+  c.label(b);
+  c.label(form == FormExact ? "locate:arg-exact" : form == FormSegment ? "locate:arg-segment" : form == FormTerminated ? "locate:arg-terminated" : "locate:arg-explicit-charset");
+}
+static void add_node(Ctx &c, NodeList &l, const Model &name, size_t newarg) {
+  node_new_fn f = core_node_new();
+  CK(c, f && f != &mpt_node_new, "harness", "libmptcore's mpt_node_new not found");
+  node *n = f(newarg);
+  CK(c, n, "new-refused", "mpt_node_new(%zu) returned NULL", newarg);
+  l.nd.push_back(n);
+  l.name.push_back(Model());
+  if (name) {
+    Exact buf(*name, false);
+    CK(c, mpt_identifier_set(&n->ident, buf.p, (int)name->size()) != 0, "set-refused", "set of a %zu byte node name refused", name->size());
+    l.name.back() = name;
+  }
+  c.logf("node [%zu] = mpt_node_new(%zu) named %s (%s)", l.nd.size() - 1, newarg, show(name).c_str(), n->ident._len > n->ident._max ? "external" : "inline");
+}
+static void op_locate(Ctx &c) {
+  NodeList l;
+  // a family of related names: base, base + one byte, base without its last byte, a long one, the empty one, none
+  std::string base = mk_content(c, c.weighted({3, 1}) ? c.range(17, 22) : c.range(1, 8));
+  for (auto &ch : base) if (!ch) ch = 1;
+  std::string longer = base + "x", shorter = base.substr(0, base.size() - 1), big = mk_content(c, 300);
+  const Model fam[] = {Model(base), Model(longer), Model(shorter), Model(big), Model(std::string()), Model()};
+  size_t n = c.range(1, 6);
+  for (size_t i = 0; i < n; i++) {
+    size_t which = c.weighted({6, 2, 2, 2, 1, 1});
+    static const size_t args[] = {0, 24, 100, 250};
+    add_node(c, l, fam[which], args[c.pick(4)]);
+  }
+  l.link();
+  bool any_ext = false;
+  for (node *x : l.nd) if (x->ident._len > x->ident._max) any_ext = true;
+  if (any_ext) c.label("locate:external-name");
+  unsigned calls = 0;
+  do {
+    size_t which = c.weighted({6, 2, 2, 2, 1, 1});
+    std::string key = which < 5 ? *fam[which] : base + "?";  // the last one is in no node
+    size_t start = c.pick(n);
+    int pos = (int)c.range(0, 9) - 3;                         // -3 .. 6
+    int form = (int)c.weighted({3, 3, 1, 1});
+    locate_once(c, l, start, pos, key, form, ".def");
+  } while (++calls < 8 && c.more());
+  // the names are still what they were
+  for (size_t i = 0; i < l.nd.size(); i++) {
+    const identifier &id = l.nd[i]->ident;
+    if (!l.name[i]) CK(c, id._len == 0, "readback-length", "node [%zu] has no name, _len %u", i, (unsigned)id._len);
+    else CK(c, id._len == l.name[i]->size() + 1 && !memcmp(mpt_identifier_data(&id), l.name[i]->data(), l.name[i]->size()), "readback-content", "name of node [%zu] changed", i);
+  }
+  c.label("op:locate");
+  c.nontrivial();
+}
+
 static int draw_kind(Ctx &c) { return (int)c.weighted({6, 3, 2, 1, 2, 1, 2, 3}); }  // new kinds are added at the end: earlier bytes keep their meaning
 static void create_drawn(World &w, size_t i) {
   Ctx &c = w.c;
@@ -468,11 +568,13 @@ static void create_drawn(World &w, size_t i) {
 }
 
 static void run_enum(Ctx &c);
+static void run_enum_locate(Ctx &c);
 
 static void run(Ctx &c) {
   g_abandon = false;
   uint8_t sel = c.u8();
   if (sel == 0xff) { run_enum(c); return; }
+  if (sel == 0xfe) { run_enum_locate(c); return; }
   World w(c);
   size_t n = 1 + sel % 3;
   for (size_t i = 0; i < n; i++) { w.n = i + 1; create_drawn(w, i); }
@@ -482,7 +584,7 @@ static void run(Ctx &c) {
   while (c.more() && ops < 60) {
     ++ops;
     size_t i = c.pick(n);
-    switch (c.weighted({8, 2, 6, 5, 3, 1, 3})) {  // new operations are added at the end
+    switch (c.weighted({8, 2, 6, 5, 3, 1, 3, 3})) {  // new operations are added at the end
       case 0: {
         size_t len = draw_len(c, w.s[i].max());
         std::string t = mk_content(c, len);
@@ -514,11 +616,12 @@ static void run(Ctx &c) {
         check_all(w, "re-creation");
         c.label("recreate");
         break;
-      default: {
+      case 6: {
         size_t len = draw_len(c, w.s[i].max() + 1);  // binary data has no terminator: inline up to _max bytes
         op_set_binary(w, i, len ? len : 1);
         break;
       }
+      default: op_locate(c); break;
     }
   }
   if (w.transitions) c.nontrivial();
@@ -585,6 +688,38 @@ static void enum_make(uint64_t idx, int, std::vector<uint8_t> &out) {
   for (int i = 0; i < 8; i++) out.push_back(0);  // content draws: pattern mode, seed 0
 }
 
+// ---- exhaustive: lists of 1..3 nodes named {"ab", "abc", none} x start node x pos -3..3 x key {"ab","abc","a"} x 4 argument forms
+static void run_enum_locate(Ctx &c) {
+  static const char *names[] = {"ab", "abc", 0};
+  NodeList l;
+  size_t n = c.range(1, 3);
+  for (size_t i = 0; i < n; i++) { const char *nm = names[c.pick(3)]; add_node(c, l, nm ? Model(nm) : Model(), 0); }
+  l.link();
+  size_t start = c.pick(n);
+  int pos = (int)c.range(0, 6) - 3;
+  static const char *keys[] = {"ab", "abc", "a"};
+  std::string key = keys[c.pick(3)];
+  locate_once(c, l, start, pos, key, (int)c.pick(4), "c.def");
+  c.nontrivial();
+}
+static uint64_t enum_locate_count(int) { return (3 + 9 + 27) * 3 * 7 * 3 * 4; }
+static void enum_locate_make(uint64_t idx, int, std::vector<uint8_t> &out) {
+  out.clear();
+  out.push_back(0xfe);
+  uint64_t form = idx % 4; idx /= 4;
+  uint64_t key = idx % 3; idx /= 3;
+  uint64_t pos = idx % 7; idx /= 7;
+  uint64_t start = idx % 3; idx /= 3;
+  uint64_t n = 1, span = 3;
+  while (idx >= span) { idx -= span; span *= 3; ++n; }
+  out.push_back((uint8_t)(n - 1));
+  for (uint64_t i = 0; i < n; i++) { out.push_back(idx % 3); idx /= 3; }
+  out.push_back((uint8_t)(start % n));  // start indices beyond the list fold onto it (a few duplicates)
+  out.push_back((uint8_t)pos);
+  out.push_back((uint8_t)key);
+  out.push_back((uint8_t)form);
+}
+
 static Target t = {
     "C16",
     "random: 1-3 identifiers in storage made by mpt_identifier_init on 16/24/32/64/88/128/216/256 byte blocks, mpt_identifier_new(len), mpt_node_new(len), the identifier type traits, "
@@ -592,13 +727,16 @@ static Target t = {
     "node locate/re-create, lengths around each inline capacity, 250..254, 65533..65536; all identifiers read back after every operation. "
     "Also identifiers made by the C static initialiser MPT_IDENTIFIER_INIT (three adjacent ones + guard bytes in one block, unused neighbours and guard compared after every operation) "
     "and set(NULL, n) (n zero bytes of non-character data; text compare must answer BadType). "
+    "Locating by name: lists of 1-6 C nodes with repeated names out of a family (base, base+1 byte, base-1 byte, 300 bytes, empty, none), mpt_node_locate from any start node with pos -3..6, "
+    "name passed as exact-size heap copy without terminator / segment followed by other bytes / terminated / explicit UTF8 charset, result compared with the model list. "
     "exhaustive: {5 storage sizes, static initialiser} x previous content x new content (none, text 0,1,cap-1,cap,cap+1,cap+2,300, binary 1,max-1,max,max+1,max+2,300) x {set, copy from each of 5 storage sizes} x {C, C++}. "
     "non-trivial: at least one identifier switched between inline and external storage (by what _len/_max say after the operation); distinct by hash of the draw sequence.",
     run,
     {600, 1500},
     false,
     true,
-    {{"storage x previous length x new length x set/copy x api", enum_count, enum_make}},
+    {{"storage x previous length x new length x set/copy x api", enum_count, enum_make},
+     {"node lists <= 3 x start x pos x key x argument form (mpt_node_locate)", enum_locate_count, enum_locate_make}},
     0,
     0,
 };
